@@ -5,8 +5,28 @@ impl PathS { pub fn as_ref(&self) -> (r: &PathS) ensures *r == *self { self } }
 #[derive(Clone, Copy, PartialEq, Eq, Structural)]
 pub struct Duration { pub ns: int }
 pub enum RecursiveMode { Recursive, NonRecursive }
-pub struct NotifyError { pub n_paths: nat }       // notify::Error: how many paths it names
-pub struct RuntimeError;
+pub struct NotifyError { pub paths: Vec<PathS> }       // notify::Error: the paths it names (kind and message not modelled)
+pub struct StrS;
+impl NotifyError {
+    #[verifier::external_body]
+    pub fn to_string(&self) -> StrS { unimplemented!() }
+}
+pub open spec fn n_paths(e: NotifyError) -> nat { e.paths@.len() }
+// std::mem::take(&mut err.paths)
+#[verifier::external_body]
+pub fn vx_take_paths(err: &mut NotifyError) -> (r: Vec<PathS>) ensures r@ == old(err).paths@, final(err).paths@.len() == 0 { unimplemented!() }
+// `err.take().unwrap_or_else(|| notify::Error::generic(&generic)).add_path(path.clone())`: the original error the first time, a generic copy of its
+// message afterwards, naming exactly this path
+#[verifier::external_body]
+pub fn vx_next_error(err: &mut Option<NotifyError>, generic: &StrS, path: PathS) -> (r: NotifyError)
+    requires *old(err) is Some ==> (*old(err))->Some_0.paths@.len() == 0,
+    ensures *final(err) is None, r.paths@ == seq![path] { unimplemented!() }
+pub enum FsWatcherError { PathAdd { path: PathS, err: NotifyError }, PathRemove { path: PathS, err: NotifyError }, Other }
+pub enum RuntimeError { FsWatcher { kind: Watcher, err: FsWatcherError }, Other }
+impl WatchedPath {
+    // From<WatchedPath> for PathBuf
+    pub fn into(self) -> (r: PathS) ensures r == self.path { self.path }
+}
 pub enum CriticalError { ErrorChannelSend, FsWatcherInit, Other }
 pub struct ErrSendErr;
 // `?`: From::from on the error (CriticalError from itself or from the channel's SendError)
@@ -104,7 +124,7 @@ impl WatcherS {
         ensures final(self).kind == old(self).kind,
             r is Ok ==> final(self).registered@ == old(self).registered@.insert(*p, mode is Recursive) && *final(env) == *old(env),
             r is Err ==> final(self).registered == old(self).registered && final(env).fails@ == old(env).fails@ + 1
-                && final(env).err_due@ == old(env).err_due@ + (if r->Err_0.n_paths == 0 { 1nat } else { r->Err_0.n_paths })
+                && final(env).err_due@ == old(env).err_due@ + (if n_paths(r->Err_0) == 0 { 1nat } else { n_paths(r->Err_0) })
                 && final(env).cfg_paths == old(env).cfg_paths && final(env).cfg_kind == old(env).cfg_kind && final(env).round == old(env).round && final(env).err_sent == old(env).err_sent,
     { unimplemented!() }
     #[verifier::external_body]
@@ -112,15 +132,11 @@ impl WatcherS {
         ensures final(self).kind == old(self).kind,
             r is Ok ==> final(self).registered@ == old(self).registered@.remove(*p) && *final(env) == *old(env),
             r is Err ==> final(self).registered == old(self).registered && final(env).fails@ == old(env).fails@ + 1
-                && final(env).err_due@ == old(env).err_due@ + (if r->Err_0.n_paths == 0 { 1nat } else { r->Err_0.n_paths })
+                && final(env).err_due@ == old(env).err_due@ + (if n_paths(r->Err_0) == 0 { 1nat } else { n_paths(r->Err_0) })
                 && final(env).cfg_paths == old(env).cfg_paths && final(env).cfg_kind == old(env).cfg_kind && final(env).round == old(env).round && final(env).err_sent == old(env).err_sent,
     { unimplemented!() }
 }
-// notify_multi_path_errors (fs.rs, string/notify::Error code: not extracted): one runtime error per path the notify error names, at least one
-#[verifier::external_body]
-pub fn notify_multi_path_errors(kind: Watcher, watched_path: WatchedPath, err: NotifyError, rm: bool) -> (r: Vec<RuntimeError>)
-    ensures r@.len() == (if err.n_paths == 0 { 1nat } else { err.n_paths }),
-{ unimplemented!() }
+// notify_multi_path_errors is an item of the unit (extracted and proved); fs::worker is checked against its contract
 // HashSet<WatchedPath>: the worker's own record of what it registered
 pub struct PathSetS { pub v: Ghost<Set<WatchedPath>> }
 impl PathSetS {
